@@ -294,9 +294,9 @@ def generate_C10(rng, tier):
                 # keep rows*cols representable where the cells are real
                 yield _cell_case(rng, rows, cols, kind, min(nalloc, max(rows, 1) * cols))
         # medium matrices
-        for _ in range(2 if q else 12):
+        for _ in range(1 if q else 3):
             rows, cols = rng.randint(100, 300), rng.randint(60, 300)
-            yield _cell_case(rng, rows, cols, kind, rows * cols if not q else min(rows * cols, 20000))
+            yield _cell_case(rng, rows, cols, kind, min(rows * cols, 3000 if q else 20000))
     # bit-specific sequences: set/clear/toggle chains on one cell and neighbours in one byte
     for _ in range(60 if q else 1000):
         rows, cols = rng.randint(1, 6), rng.randint(1, 12)
